@@ -145,17 +145,19 @@ class TypeScriptMagicNumberAnalyzer(TypeScriptBaseAnalyzer):  # thailint: ignore
         Returns:
             Declaration parent or None
         """
+        # The value may be written as arithmetic on literals (7 * 24 * 60 * 60), signed,
+        # parenthesized or cast: climb through those wrappers to the declaration
+        wrappers = (
+            "binary_expression",
+            "unary_expression",
+            "parenthesized_expression",
+            "as_expression",
+            "satisfies_expression",
+        )
         parent = node.parent
-        if self._is_declaration_type(parent):
-            return parent
-
-        # Try grandparent for nested cases
-        if parent is not None:
-            grandparent = parent.parent
-            if self._is_declaration_type(grandparent):
-                return grandparent
-
-        return None
+        while parent is not None and parent.type in wrappers:
+            parent = parent.parent
+        return parent if self._is_declaration_type(parent) else None
 
     def _is_declaration_type(self, node: Node | None) -> bool:
         """Check if node is a declaration type."""
